@@ -7,6 +7,9 @@ open FsDb Sys Spec
 theorem notUnlock_of {σ : St} {i : Nat} {pc : Pc} (hpc : (σ.thr i).pc = pc) (h : ∀ o, pc ≠ .beginUnlock o) :
     ∀ o, (σ.thr i).pc ≠ .beginUnlock o := by rw [hpc]; exact h
 
+theorem notClosing_of {σ : St} {i : Nat} {pc : Pc} (hpc : (σ.thr i).pc = pc) (h : notClosingPc pc) :
+    notClosingPc (σ.thr i).pc := by rw [hpc]; exact h
+
 theorem hz_not_self {σ : St} {i : Nat} (h : CInv σ) {pc : Pc} (hpc : (σ.thr i).pc = pc)
     (hn : ∀ o, pc ≠ .beginUnlock o) : σ.hzLock ≠ some i := by
   intro e
@@ -16,13 +19,27 @@ theorem hz_not_self {σ : St} {i : Nat} (h : CInv σ) {pc : Pc} (hpc : (σ.thr i
 
 /-- lock bookkeeping for linearization points that leave the horizon mutex alone -/
 theorem lin_lock {σ : St} {i : Nat} (h : CInv σ) {pc : Pc} (hpc : (σ.thr i).pc = pc) (hn : ∀ o, pc ≠ .beginUnlock o)
-    (sys' : Sys) (op : Op) (w : Out) (pc' : Pc) :
-    ∀ j, σ.hzLock = some j → ∃ o, (({ σ.linearize i sys' op w pc' with hzLock := σ.hzLock } : St).thr j).pc = .beginUnlock o := by
+    (sys' : Sys) (op : Op) (w : Out) (pc' : Pc) (cl' : List Nat) :
+    ∀ j, σ.hzLock = some j → ∃ o, (({ σ.linearize i sys' op w pc' with hzLock := σ.hzLock, closing := cl' } : St).thr j).pc = .beginUnlock o := by
   intro j hj
   obtain ⟨o, ho⟩ := h.lock j hj
   by_cases hij : j = i
   · subst hij; rw [hpc] at ho; exact absurd ho (hn o)
   · exact ⟨o, by simp [St.linearize, hij]; exact ho⟩
+
+/-- a state-changing linearization point that leaves the horizon mutex and the closing set alone -/
+theorem linearize_same {σ : St} {i : Nat} (h : CInv σ) {pc : Pc} (hpc : (σ.thr i).pc = pc)
+    (hn : ∀ o, pc ≠ .beginUnlock o) (hnc : notClosingPc pc)
+    (sys' : Sys) (op : Op) (w : Out) (pc' : Pc)
+    (hop : (σ.thr i).op = some op) (hnr : notRead op = true) (hpl : plainOp op = true)
+    (hR : Rx σ.closing (withB (σ.busy.map (·.2)) sys') (Spec.step (specOf σ) op).1)
+    (hw : w = (Spec.step (specOf σ) op).2)
+    (fr : ∃ t, allowed σ i t = true ∧ Frame σ.sys sys' t)
+    (hp : PcInv (σ.linearize i sys' op w pc') i { σ.thr i with wit := some w } pc') :
+    CInv (σ.linearize i sys' op w pc') := by
+  have hcs := closing_same h sys' op w pc' σ.hzLock (notClosing_of hpc hnc)
+  exact linearize_inv h sys' op w pc' σ.hzLock σ.closing hop hnr hpl hR hw fr (fun _ _ hj => hj)
+    (lin_lock h hpc hn _ _ _ _ _) hcs.1 hcs.2 hp
 
 theorem set_guard_fail {s : Sys} {t : Nat} {k : Key} {c : Nat} (h : (s.regGet t).isNone = true) :
     s.set t k c = (s, .err .txNotFound) := by simp [Sys.set, h]
@@ -51,7 +68,7 @@ theorem isSome_of_not_isNone {α} {o : Option α} (h : ¬ o.isNone = true) : o.i
 
 /-- one `deleteFile` of a job in execution -/
 theorem delete_step {σ : St} {i : Nat} (h : CInv σ) {v : Ver} {todo : List Ver} (pc' : Pc)
-    (hnot : ∀ o, (σ.thr i).pc ≠ .beginUnlock o) (hjob : Job σ i (v :: todo))
+    (hnot : ∀ o, (σ.thr i).pc ≠ .beginUnlock o) (hnc : notClosingPc (σ.thr i).pc) (hjob : Job σ i (v :: todo))
     (hp : Job { σ.goto i pc' with sys := delOne σ.sys v } i todo →
           PcInv { σ.goto i pc' with sys := delOne σ.sys v } i (σ.thr i) pc') :
     CInv { σ.goto i pc' with sys := delOne σ.sys v } := by
@@ -59,8 +76,8 @@ theorem delete_step {σ : St} {i : Nat} (h : CInv σ) {v : Ver} {todo : List Ver
   have hthr : ∀ j, j ≠ i → ({ σ.goto i pc' with sys := delOne σ.sys v } : St).thr j = σ.thr j :=
     fun j hij => setThr_other σ i _ hij
   have g : Guar σ { σ.goto i pc' with sys := delOne σ.sys v } i :=
-    ⟨⟨mainTx, allowed_main σ i, frame_delOne σ.sys v mainTx⟩, fun _ _ h => h, ⟨[], by simp [St.goto, St.setThr]⟩,
-      fun _ _ _ h => h, fun _ _ h => h⟩
+    ⟨⟨mainTx, allowed_main σ i, frame_delOne σ.sys v mainTx⟩, fun _ _ h => h, ⟨[], by simp [St.goto, St.setThr], by simp⟩,
+      fun _ _ _ h => h, fun _ _ h => h, fun _ h => Or.inl h⟩
   have hjp : job ∈ (withBusy σ).pending := by
     show job ∈ σ.busy.map (·.2) ++ σ.sys.pending
     exact List.mem_append_left _ (List.mem_map.mpr ⟨(i, job), hmem, rfl⟩)
@@ -68,11 +85,12 @@ theorem delete_step {σ : St} {i : Nat} (h : CInv σ) {v : Ver} {todo : List Ver
     intro u hu
     simp only [List.mem_singleton] at hu; subst hu
     exact h.rel.inv.pendDead job hjp u (hsub u (by simp))
-  have hR : R (withBusy { σ.goto i pc' with sys := delOne σ.sys v }) (specOf σ) := by
-    show R (withB (σ.busy.map (·.2)) (delOne σ.sys v)) (specOf σ)
+  have hR : Rx σ.closing (withBusy { σ.goto i pc' with sys := delOne σ.sys v }) (specOf σ) := by
+    show Rx σ.closing (withB (σ.busy.map (·.2)) (delOne σ.sys v)) (specOf σ)
     rw [← withB_delOne]
     exact deleteFiles_R h.rel [v] hd
   refine h.of_step g hthr hR h.outs ?_ (lock_keep h hthr rfl hnot)
+    (closing_keep h hthr rfl (fun _ _ h => h) hnc) h.ownerMain
   have ht := h.thr i
   show TInv _ i (({ σ.goto i pc' with sys := delOne σ.sys v } : St).thr i)
   rw [show ({ σ.goto i pc' with sys := delOne σ.sys v } : St).thr i = { σ.thr i with pc := pc' } from setThr_self σ i _]
@@ -80,16 +98,16 @@ theorem delete_step {σ : St} {i : Nat} (h : CInv σ) {v : Ver} {todo : List Ver
 
 /-- a job in execution is finished: it leaves the ghost list -/
 theorem finish_step {σ : St} {i : Nat} (h : CInv σ) (pc' : Pc)
-    (hnot : ∀ o, (σ.thr i).pc ≠ .beginUnlock o)
+    (hnot : ∀ o, (σ.thr i).pc ≠ .beginUnlock o) (hnc : notClosingPc (σ.thr i).pc)
     (hp : PcInv { σ.goto i pc' with busy := σ.busy.filter (·.1 ≠ i) } i (σ.thr i) pc') :
     CInv { σ.goto i pc' with busy := σ.busy.filter (·.1 ≠ i) } := by
   have hthr : ∀ j, j ≠ i → ({ σ.goto i pc' with busy := σ.busy.filter (·.1 ≠ i) } : St).thr j = σ.thr j :=
     fun j hij => setThr_other σ i _ hij
   have g : Guar σ { σ.goto i pc' with busy := σ.busy.filter (·.1 ≠ i) } i :=
-    ⟨⟨mainTx, allowed_main σ i, Frame.rfl' _ _⟩, fun _ _ h => h, ⟨[], by simp [St.goto, St.setThr]⟩,
-      fun j job hij hm => List.mem_filter.mpr ⟨hm, by simpa using hij⟩, fun _ _ h => h⟩
-  have hR : R (withBusy { σ.goto i pc' with busy := σ.busy.filter (·.1 ≠ i) }) (specOf σ) := by
-    show R { withBusy σ with pending := (σ.busy.filter (·.1 ≠ i)).map (·.2) ++ σ.sys.pending } (specOf σ)
+    ⟨⟨mainTx, allowed_main σ i, Frame.rfl' _ _⟩, fun _ _ h => h, ⟨[], by simp [St.goto, St.setThr], by simp⟩,
+      fun j job hij hm => List.mem_filter.mpr ⟨hm, by simpa using hij⟩, fun _ _ h => h, fun _ h => Or.inl h⟩
+  have hR : Rx σ.closing (withBusy { σ.goto i pc' with busy := σ.busy.filter (·.1 ≠ i) }) (specOf σ) := by
+    show Rx σ.closing { withBusy σ with pending := (σ.busy.filter (·.1 ≠ i)).map (·.2) ++ σ.sys.pending } (specOf σ)
     apply h.rel.pendingSub
     intro job hj
     show job ∈ σ.busy.map (·.2) ++ σ.sys.pending
@@ -98,10 +116,137 @@ theorem finish_step {σ : St} {i : Nat} (h : CInv σ) (pc' : Pc)
       exact List.mem_append_left _ (List.mem_map.mpr ⟨p, mem_of_filter hp1, hp2⟩)
     · exact List.mem_append_right _ hj
   refine h.of_step g hthr hR h.outs ?_ (lock_keep h hthr rfl hnot)
+    (closing_keep h hthr rfl (fun _ _ h => h) hnc) h.ownerMain
   have ht := h.thr i
   show TInv _ i (({ σ.goto i pc' with busy := σ.busy.filter (·.1 ≠ i) } : St).thr i)
   rw [show ({ σ.goto i pc' with busy := σ.busy.filter (·.1 ≠ i) } : St).thr i = { σ.thr i with pc := pc' } from setThr_self σ i _]
   exact ⟨ht.invLe, ht.wit, hp⟩
+
+/-- `txRepo.Delete` found the transaction: it is inside Commit / Rollback from now on -/
+theorem dereg_step {σ : St} {i : Nat} (h : CInv σ) {pc : Pc} (hpc : (σ.thr i).pc = pc)
+    (hn : ∀ o, pc ≠ .beginUnlock o) (hc1 : ∀ t, pc ≠ .commitRun t) (hc2 : ∀ t, pc ≠ .rollbackRun t)
+    {t : Nat} (htm : t ≠ mainTx) (hal : allowed σ i t = true) (pc' : Pc)
+    (hpc' : pc' = .commitRun t ∨ pc' = .rollbackRun t)
+    (hp : PcInv σ i (σ.thr i) pc') :
+    CInv { σ.goto i pc' with closing := t :: σ.closing } := by
+  have hthr : ∀ j, j ≠ i → ({ σ.goto i pc' with closing := t :: σ.closing } : St).thr j = σ.thr j :=
+    fun j hij => setThr_other σ i _ hij
+  have g : Guar σ { σ.goto i pc' with closing := t :: σ.closing } i :=
+    ⟨⟨mainTx, allowed_main σ i, Frame.rfl' _ _⟩, fun _ _ h => h, ⟨[], by simp [St.goto, St.setThr], by simp⟩, fun _ _ _ h => h,
+      fun _ _ h => h, fun t' ht' => Or.inl (List.mem_cons_of_mem _ ht')⟩
+  have hself : ({ σ.goto i pc' with closing := t :: σ.closing } : St).thr i = { σ.thr i with pc := pc' } := setThr_self σ i _
+  refine h.of_step g hthr (h.rel.closing_add t) h.outs ?_ (lock_keep h hthr rfl (notUnlock_of hpc hn)) ?_ h.ownerMain
+  · have ht := h.thr i
+    show TInv _ i (({ σ.goto i pc' with closing := t :: σ.closing } : St).thr i)
+    rw [hself]
+    refine ⟨ht.invLe, ht.wit, ?_⟩
+    rcases hpc' with e | e <;> subst e <;> exact hp
+  · intro t' ht'
+    rcases List.mem_cons.mp ht' with e | hin
+    · subst e
+      have ho : σ.owner t' = some i := by
+        simp only [allowed, Bool.or_eq_true, decide_eq_true_eq] at hal
+        rcases hal with hal | hal
+        · exact absurd hal htm
+        · exact hal
+      refine ⟨i, ho, ?_⟩
+      rw [hself]
+      rcases hpc' with e | e <;> subst e
+      · exact Or.inl rfl
+      · exact Or.inr rfl
+    · obtain ⟨j, hj, hpj⟩ := h.closing t' hin
+      have hij : j ≠ i := by
+        intro e; subst e; rw [hpc] at hpj
+        rcases hpj with e | e
+        · exact hc1 t' e
+        · exact hc2 t' e
+      exact ⟨j, hj, by rw [hthr j hij]; exact hpj⟩
+
+/-- the second step of Commit / Rollback: the operation takes effect, the transaction leaves `closing` -/
+theorem close_step {σ : St} {i : Nat} (h : CInv σ) {pc : Pc} (hpc : (σ.thr i).pc = pc)
+    (hn : ∀ o, pc ≠ .beginUnlock o) {t : Nat}
+    (hc1 : ∀ t', pc = .commitRun t' → t' = t) (hc2 : ∀ t', pc = .rollbackRun t' → t' = t)
+    (sys' : Sys) (op : Op) (w : Out)
+    (hop : (σ.thr i).op = some op) (hnr : notRead op = true) (hpl : plainOp op = true)
+    (hR : Rx σ.closing (withB (σ.busy.map (·.2)) sys') (Spec.step (specOf σ) op).1)
+    (hw : w = (Spec.step (specOf σ) op).2)
+    (hal : allowed σ i t = true) (fr : Frame σ.sys sys' t)
+    (hne : ∀ r ∈ sys'.reg, r.id ≠ t) :
+    CInv { σ.linearize i sys' op w (.ret w) with closing := σ.closing.filter (· ≠ t) } := by
+  refine linearize_inv h sys' op w (.ret w) σ.hzLock (σ.closing.filter (· ≠ t)) hop hnr hpl (hR.closing_erase t hne) hw
+    ⟨t, hal, fr⟩ (fun _ _ hj => hj) (lin_lock h hpc hn _ _ _ _ _) ?_ ?_ (ret_of_wit rfl)
+  · intro t' ht'
+    by_cases e : t' = t
+    · subst e; exact Or.inr hne
+    · exact Or.inl (List.mem_filter.mpr ⟨ht', by simpa using e⟩)
+  · intro t' ht'
+    obtain ⟨hin, hne'⟩ := List.mem_filter.mp ht'
+    have hne' : t' ≠ t := by simpa using hne'
+    obtain ⟨j, hj, hpj⟩ := h.closing t' hin
+    have hij : j ≠ i := by
+      intro e; subst e; rw [hpc] at hpj
+      rcases hpj with e | e
+      · exact hne' (hc1 t' e)
+      · exact hne' (hc2 t' e)
+    refine ⟨j, hj, ?_⟩
+    have : ({ σ.linearize i sys' op w (.ret w) with hzLock := σ.hzLock, closing := σ.closing.filter (· ≠ t) } : St).thr j = σ.thr j := by
+      simp [St.linearize, hij]
+    rw [this]; exact hpj
+
+/-- the horizon step of the collector -/
+theorem horizon_step {σ : St} {i : Nat} (h : CInv σ) (hpc : (σ.thr i).pc = .gcHorizon)
+    (hop : (σ.thr i).op = some .gc) :
+    CInv { σ.linearize i (gcDrawX σ.sys σ.closing) .gc .ok (.gcCollect (gcHzX σ.sys σ.closing)) with
+      lin := (σ.linearize i (gcDrawX σ.sys σ.closing) .gc .ok (.gcCollect (gcHzX σ.sys σ.closing))).lin
+        ++ [(i, .tick (gcDrawX σ.sys σ.closing).counter, .ok)] } := by
+  have isys := inv_sys h
+  have ht := h.thr i
+  have hthr : ∀ j, j ≠ i → ({ σ.linearize i (gcDrawX σ.sys σ.closing) .gc .ok (.gcCollect (gcHzX σ.sys σ.closing)) with
+      lin := (σ.linearize i (gcDrawX σ.sys σ.closing) .gc .ok (.gcCollect (gcHzX σ.sys σ.closing))).lin
+        ++ [(i, .tick (gcDrawX σ.sys σ.closing).counter, .ok)] } : St).thr j = σ.thr j := by
+    intro j hij; simp [St.linearize, hij]
+  have hlin : ({ σ.linearize i (gcDrawX σ.sys σ.closing) .gc .ok (.gcCollect (gcHzX σ.sys σ.closing)) with
+      lin := (σ.linearize i (gcDrawX σ.sys σ.closing) .gc .ok (.gcCollect (gcHzX σ.sys σ.closing))).lin
+        ++ [(i, .tick (gcDrawX σ.sys σ.closing).counter, .ok)] } : St).lin
+      = σ.lin ++ [(i, .op .gc, .ok), (i, .tick (gcDrawX σ.sys σ.closing).counter, .ok)] := by
+    simp [St.linearize]
+  have g : Guar σ { σ.linearize i (gcDrawX σ.sys σ.closing) .gc .ok (.gcCollect (gcHzX σ.sys σ.closing)) with
+      lin := (σ.linearize i (gcDrawX σ.sys σ.closing) .gc .ok (.gcCollect (gcHzX σ.sys σ.closing))).lin
+        ++ [(i, .tick (gcDrawX σ.sys σ.closing).counter, .ok)] } i :=
+    ⟨⟨mainTx, allowed_main σ i, frame_gcDrawX σ.sys σ.closing mainTx⟩, fun _ _ h => h, ⟨_, hlin, by simp [EOp.plain, plainOp]⟩, fun _ _ _ h => h,
+      fun _ _ h => h, fun _ h => Or.inl h⟩
+  have e : linOps (σ.lin ++ [(i, EOp.op .gc, Out.ok), (i, .tick (gcDrawX σ.sys σ.closing).counter, .ok)])
+      = (linOps σ.lin ++ [.op .gc]) ++ [.tick (gcDrawX σ.sys σ.closing).counter] := by simp [linOps]
+  have a1 := spec_erun_append {} (linOps σ.lin) .gc
+  have a2 := spec_erun_append_tick {} (linOps σ.lin ++ [.op .gc]) (gcDrawX σ.sys σ.closing).counter
+  refine h.of_step g hthr ?_ ?_ ?_ (lock_keep h hthr rfl (notUnlock_of hpc (by intro o; simp)))
+    (closing_keep h hthr rfl (fun _ _ h => h) (notClosing_of hpc (by intro t; simp))) h.ownerMain
+  · show Rx σ.closing (withB (σ.busy.map (·.2)) (gcDrawX σ.sys σ.closing)) (Spec.erun {} (linOps _)).1
+    rw [hlin, e, a2.1, a1.1]
+    have := gcDrawX_R h.rel
+    unfold withBusy at this
+    rw [withB_gcDrawX] at this
+    exact this
+  · show (Spec.erun {} (linOps _)).2 = linOuts _
+    rw [hlin, e, a2.2, a1.2, h.outs]
+    simp [linOuts, List.filterMap_append]
+    rfl
+  · rw [show ({ σ.linearize i (gcDrawX σ.sys σ.closing) .gc .ok (.gcCollect (gcHzX σ.sys σ.closing)) with
+      lin := (σ.linearize i (gcDrawX σ.sys σ.closing) .gc .ok (.gcCollect (gcHzX σ.sys σ.closing))).lin
+        ++ [(i, .tick (gcDrawX σ.sys σ.closing).counter, .ok)] } : St).thr i
+        = { σ.thr i with pc := .gcCollect (gcHzX σ.sys σ.closing), wit := some .ok, witAt := σ.lin.length + 1 } by
+      simp [St.linearize]]
+    have hsafe := gcHzX_safe isys σ.closing
+    refine ⟨?_, ?_, ⟨hsafe.1, hsafe.2, rfl⟩⟩
+    · show (σ.thr i).invAt ≤ _
+      rw [hlin]; simp; have := ht.invLe; omega
+    · intro w' hw'
+      have : w' = .ok := by simpa using hw'.symm
+      subst this
+      refine ⟨Nat.le_succ_of_le ht.invLe, by rw [hlin]; simp, ?_⟩
+      simp only [WitSem, hop]
+      refine ⟨Nat.lt_succ_of_le ht.invLe, ?_⟩
+      simp [St.linearize]
 
 /-- every enabled step of every thread preserves the invariant -/
 theorem step_inv {σ σ' : St} {i : Nat} (h : CInv σ) (hs : step σ i = some σ') : CInv σ' := by
@@ -112,7 +257,7 @@ theorem step_inv {σ σ' : St} {i : Nat} (h : CInv σ) (hs : step σ i = some σ
   | idle => simp [step, hpc] at hs
   | ret o =>
     simp only [step, hpc, Option.some.injEq] at hs; subst hs
-    exact goto_inv h .idle (notUnlock_of hpc (by intro o; simp)) trivial
+    exact goto_inv h .idle (notUnlock_of hpc (by intro o; simp)) (notClosing_of hpc (by intro t; simp)) trivial
   | setGuard t k c =>
     rw [hpc] at hp
     simp only [step, hpc] at hs
@@ -125,8 +270,7 @@ theorem step_inv {σ σ' : St} {i : Nat} (h : CInv σ) (hs : step σ i = some σ
       have e := set_guard_fail (k := k) (c := c) hg
       have e1 : (σ.sys.step (.set t k c)).1 = σ.sys := by show (σ.sys.set t k c).1 = _; rw [e]
       rw [e1] at hR
-      refine linearize_inv h σ.sys (.set t k c) _ _ σ.hzLock hp.2 hnr hR hw ⟨t, hp.1, Frame.rfl' _ _⟩
-        (fun _ _ hj => hj) (lin_lock h hpc (by intro o; simp) _ _ _ _) ?_
+      refine linearize_same h hpc (by intro o; simp) (by intro t; simp) σ.sys (.set t k c) _ _ hp.2 hnr rfl hR hw ⟨t, hp.1, Frame.rfl' _ _⟩ ?_
       refine ret_of_wit ?_; show some (σ.sys.set t k c).2 = _; rw [e]
     · rename_i hg
       split at hs
@@ -135,16 +279,15 @@ theorem step_inv {σ σ' : St} {i : Nat} (h : CInv σ) (hs : step σ i = some σ
         have e := set_empty (c := c) hg
         have e1 : (σ.sys.step (.set t "" c)).1 = σ.sys := by show (σ.sys.set t "" c).1 = _; rw [e]
         rw [e1] at hR
-        refine linearize_inv h σ.sys (.set t "" c) _ _ σ.hzLock hp.2 hnr hR hw ⟨t, hp.1, Frame.rfl' _ _⟩
-          (fun _ _ hj => hj) (lin_lock h hpc (by intro o; simp) _ _ _ _) ?_
+        refine linearize_same h hpc (by intro o; simp) (by intro t; simp) σ.sys (.set t "" c) _ _ hp.2 hnr rfl hR hw ⟨t, hp.1, Frame.rfl' _ _⟩ ?_
         refine ret_of_wit ?_; show some (σ.sys.set t "" c).2 = _; rw [e]
       · rename_i hk
         simp only [Option.some.injEq] at hs; subst hs
-        exact goto_inv h _ (notUnlock_of hpc (by intro o; simp)) ⟨hp.1, hp.2, isSome_of_not_isNone hg, hk⟩
+        exact goto_inv h _ (notUnlock_of hpc (by intro o; simp)) (notClosing_of hpc (by intro t; simp)) ⟨hp.1, hp.2, isSome_of_not_isNone hg, hk⟩
   | setContent t k c =>
     rw [hpc] at hp
     simp only [step, hpc, Option.some.injEq] at hs; subst hs
-    exact goto_inv h _ (notUnlock_of hpc (by intro o; simp)) hp
+    exact goto_inv h _ (notUnlock_of hpc (by intro o; simp)) (notClosing_of hpc (by intro t; simp)) hp
   | setStore t k c =>
     rw [hpc] at hp
     simp only [step, hpc, Option.some.injEq] at hs; subst hs
@@ -153,8 +296,7 @@ theorem step_inv {σ σ' : St} {i : Nat} (h : CInv σ) (hs : step σ i = some σ
     have e := set_ok (c := c) hp.2.2.1 hp.2.2.2
     have e1 : (σ.sys.step (.set t k c)).1 = storeSet σ.sys t k c := by show (σ.sys.set t k c).1 = _; rw [e]
     rw [e1] at hR
-    refine linearize_inv h _ (.set t k c) _ _ σ.hzLock hp.2.1 rfl hR hw ⟨t, hp.1, frame_storeSet isys t k c⟩
-      (fun _ _ hj => hj) (lin_lock h hpc (by intro o; simp) _ _ _ _) ?_
+    refine linearize_same h hpc (by intro o; simp) (by intro t; simp) _ (.set t k c) _ _ hp.2.1 rfl rfl hR hw ⟨t, hp.1, frame_storeSet isys t k c⟩ ?_
     refine ret_of_wit ?_; show some (σ.sys.set t k c).2 = _; rw [e]
   | delGuard t k =>
     rw [hpc] at hp
@@ -167,12 +309,11 @@ theorem step_inv {σ σ' : St} {i : Nat} (h : CInv σ) (hs : step σ i = some σ
       have e := del_guard_fail (k := k) hg
       have e1 : (σ.sys.step (.del t k)).1 = σ.sys := by show (σ.sys.del t k).1 = _; rw [e]
       rw [e1] at hR
-      refine linearize_inv h σ.sys (.del t k) _ _ σ.hzLock hp.2 rfl hR hw ⟨t, hp.1, Frame.rfl' _ _⟩
-        (fun _ _ hj => hj) (lin_lock h hpc (by intro o; simp) _ _ _ _) ?_
+      refine linearize_same h hpc (by intro o; simp) (by intro t; simp) σ.sys (.del t k) _ _ hp.2 rfl rfl hR hw ⟨t, hp.1, Frame.rfl' _ _⟩ ?_
       refine ret_of_wit ?_; show some (σ.sys.del t k).2 = _; rw [e]
     · rename_i hg
       simp only [Option.some.injEq] at hs; subst hs
-      exact goto_inv h _ (notUnlock_of hpc (by intro o; simp)) ⟨hp.1, hp.2, isSome_of_not_isNone hg⟩
+      exact goto_inv h _ (notUnlock_of hpc (by intro o; simp)) (notClosing_of hpc (by intro t; simp)) ⟨hp.1, hp.2, isSome_of_not_isNone hg⟩
   | delStore t k =>
     rw [hpc] at hp
     simp only [step, hpc, Option.some.injEq] at hs; subst hs
@@ -181,8 +322,7 @@ theorem step_inv {σ σ' : St} {i : Nat} (h : CInv σ) (hs : step σ i = some σ
     have e := del_ok (k := k) hp.2.2
     have e1 : (σ.sys.step (.del t k)).1 = storeDel σ.sys t k := by show (σ.sys.del t k).1 = _; rw [e]
     rw [e1] at hR
-    refine linearize_inv h _ (.del t k) _ _ σ.hzLock hp.2.1 rfl hR hw ⟨t, hp.1, frame_storeDel isys t k⟩
-      (fun _ _ hj => hj) (lin_lock h hpc (by intro o; simp) _ _ _ _) ?_
+    refine linearize_same h hpc (by intro o; simp) (by intro t; simp) _ (.del t k) _ _ hp.2.1 rfl rfl hR hw ⟨t, hp.1, frame_storeDel isys t k⟩ ?_
     refine ret_of_wit ?_; show some (σ.sys.del t k).2 = _; rw [e]
   | getReg t k =>
     rw [hpc] at hp
@@ -190,7 +330,7 @@ theorem step_inv {σ σ' : St} {i : Nat} (h : CInv σ) (hs : step σ i = some σ
     split at hs
     · rename_i hg
       simp only [Option.some.injEq] at hs; subst hs
-      refine witness_inv h _ _ (notUnlock_of hpc (by intro o; simp)) (get_witness h hp.2) ?_
+      refine witness_inv h _ _ (notUnlock_of hpc (by intro o; simp)) (notClosing_of hpc (by intro t; simp)) (get_witness h hp.2 (not_closing h hp.1 (notClosing_of hpc (by intro t; simp)))) ?_
       refine ret_of_wit ?_; show some (σ.sys.get t k) = _
       simp [Sys.get, hg]
     · rename_i tx hg
@@ -200,11 +340,11 @@ theorem step_inv {σ σ' : St} {i : Nat} (h : CInv σ) (hs : step σ i = some σ
         · subst htm; rw [regGet_main] at hg; rw [← Option.some.inj hg]
         · simp only [Sys.regGet, htm, if_false] at hg
           simpa using List.find?_some hg
-      refine goto_inv h _ (notUnlock_of hpc (by intro o; simp)) ⟨⟨by rw [hid]; exact hp.1, by rw [hid]; exact hg⟩, by rw [hid]; exact hp.2, trivial⟩
+      refine goto_inv h _ (notUnlock_of hpc (by intro o; simp)) (notClosing_of hpc (by intro t; simp)) ⟨⟨by rw [hid]; exact hp.1, by rw [hid]; exact hg⟩, by rw [hid]; exact hp.2, trivial⟩
   | getOwn tx k prev =>
     rw [hpc] at hp
     simp only [step, hpc, Option.some.injEq] at hs; subst hs
-    exact goto_inv h _ (notUnlock_of hpc (by intro o; simp)) ⟨hp.1, hp.2.1, hp.2.2, ownOk_now isys tx k⟩
+    exact goto_inv h _ (notUnlock_of hpc (by intro o; simp)) (notClosing_of hpc (by intro t; simp)) ⟨hp.1, hp.2.1, hp.2.2, ownOk_now isys tx k⟩
   | getBase tx k own prev =>
     rw [hpc] at hp
     obtain ⟨hreg, hop, hprev, hown⟩ := hp
@@ -216,7 +356,7 @@ theorem step_inv {σ σ' : St} {i : Nat} (h : CInv σ) (hs : step σ i = some σ
     | none =>
       rw [hv] at hs hget
       simp only [Option.some.injEq] at hs; subst hs
-      refine witness_inv h _ _ (notUnlock_of hpc (by intro o; simp)) (get_witness h hop) ?_
+      refine witness_inv h _ _ (notUnlock_of hpc (by intro o; simp)) (notClosing_of hpc (by intro t; simp)) (get_witness h hop (not_closing h hreg.1 (notClosing_of hpc (by intro t; simp)))) ?_
       refine ret_of_wit ?_; show some (σ.sys.get tx.id k) = _; rw [hget]
     | some v =>
       rw [hv] at hs hget
@@ -227,14 +367,14 @@ theorem step_inv {σ σ' : St} {i : Nat} (h : CInv σ) (hs : step σ i = some σ
       split at hs
       · rename_i hpv
         simp only [Option.some.injEq] at hs; subst hs
-        refine witness_inv h _ _ (notUnlock_of hpc (by intro o; simp)) (get_witness h hop) ?_
+        refine witness_inv h _ _ (notUnlock_of hpc (by intro o; simp)) (notClosing_of hpc (by intro t; simp)) (get_witness h hop (not_closing h hreg.1 (notClosing_of hpc (by intro t; simp)))) ?_
         refine ret_of_wit ?_; show some (σ.sys.get tx.id k) = _
         rw [hget]
         subst hpv
         have := hprev.2
         rw [this]
       · simp only [Option.some.injEq] at hs; subst hs
-        refine witness_inv h _ _ (notUnlock_of hpc (by intro o; simp)) (get_witness h hop) ?_
+        refine witness_inv h _ _ (notUnlock_of hpc (by intro o; simp)) (notClosing_of hpc (by intro t; simp)) (get_witness h hop (not_closing h hreg.1 (notClosing_of hpc (by intro t; simp)))) ?_
         refine ⟨hreg, hop, ?_, hb.2.2.1, Or.inr hstor⟩
         show some (σ.sys.get tx.id k) = _
         rw [hget, hstor]
@@ -246,21 +386,21 @@ theorem step_inv {σ σ' : St} {i : Nat} (h : CInv σ) (hs : step σ i = some σ
     split at hs
     · rename_i c hc
       simp only [Option.some.injEq] at hs; subst hs
-      refine goto_inv h _ (notUnlock_of hpc (by intro o; simp)) (ret_of_wit ?_)
+      refine goto_inv h _ (notUnlock_of hpc (by intro o; simp)) (notClosing_of hpc (by intro t; simp)) (ret_of_wit ?_)
       rw [hwit]
       rcases hcont with e | e
       · rw [e] at hc; cases hc
       · rw [e] at hc; rw [hc]; rfl
     · rename_i hc
       simp only [Option.some.injEq] at hs; subst hs
-      exact goto_inv h _ (notUnlock_of hpc (by intro o; simp)) ⟨hreg, hop, hcid, hc⟩
+      exact goto_inv h _ (notUnlock_of hpc (by intro o; simp)) (notClosing_of hpc (by intro t; simp)) ⟨hreg, hop, hcid, hc⟩
   | keysReg t =>
     rw [hpc] at hp
     simp only [step, hpc] at hs
     split at hs
     · rename_i hg
       simp only [Option.some.injEq] at hs; subst hs
-      refine witness_inv h _ _ (notUnlock_of hpc (by intro o; simp)) (keys_witness h hp.2) ⟨?_, ?_⟩
+      refine witness_inv h _ _ (notUnlock_of hpc (by intro o; simp)) (notClosing_of hpc (by intro t; simp)) (keys_witness h hp.2 (not_closing h hp.1 (notClosing_of hpc (by intro t; simp)))) ⟨?_, ?_⟩
       · intro hk; simp [isKeys, hp.2] at hk
       · intro ks e; cases e
     · rename_i tx hg
@@ -270,15 +410,15 @@ theorem step_inv {σ σ' : St} {i : Nat} (h : CInv σ) (hs : step σ i = some σ
         · subst htm; rw [regGet_main] at hg; rw [← Option.some.inj hg]
         · simp only [Sys.regGet, htm, if_false] at hg
           simpa using List.find?_some hg
-      refine goto_inv h _ (notUnlock_of hpc (by intro o; simp)) ⟨⟨by rw [hid]; exact hp.1, by rw [hid]; exact hg⟩, by rw [hid]; exact hp.2⟩
+      refine goto_inv h _ (notUnlock_of hpc (by intro o; simp)) (notClosing_of hpc (by intro t; simp)) ⟨⟨by rw [hid]; exact hp.1, by rw [hid]; exact hg⟩, by rw [hid]; exact hp.2⟩
   | keysOwn tx =>
     rw [hpc] at hp
     simp only [step, hpc, Option.some.injEq] at hs; subst hs
-    exact goto_inv h _ (notUnlock_of hpc (by intro o; simp)) ⟨hp.1, hp.2, kOwnOk_now isys tx⟩
+    exact goto_inv h _ (notUnlock_of hpc (by intro o; simp)) (notClosing_of hpc (by intro t; simp)) ⟨hp.1, hp.2, kOwnOk_now isys tx⟩
   | keysBase tx own =>
     rw [hpc] at hp
     simp only [step, hpc, Option.some.injEq] at hs; subst hs
-    refine witness_inv h _ _ (notUnlock_of hpc (by intro o; simp)) (keys_witness h hp.2.1) ⟨?_, ?_⟩
+    refine witness_inv h _ _ (notUnlock_of hpc (by intro o; simp)) (notClosing_of hpc (by intro t; simp)) (keys_witness h hp.2.1 (not_closing h hp.1.1 (notClosing_of hpc (by intro t; simp)))) ⟨?_, ?_⟩
     · show isKeys (σ.thr i).op = true
       simp [isKeys, hp.2.1]
     · exact keysOk_now isys hp.1.2 hp.2.2
@@ -288,7 +428,7 @@ theorem step_inv {σ σ' : St} {i : Nat} (h : CInv σ) (hs : step σ i = some σ
     | nil =>
       simp only [step, hpc, Option.some.injEq] at hs; subst hs
       obtain ⟨hk1, W, hw, hacc, _⟩ := hp
-      refine goto_inv h _ (notUnlock_of hpc (by intro o; simp)) ⟨?_, ?_⟩
+      refine goto_inv h _ (notUnlock_of hpc (by intro o; simp)) (notClosing_of hpc (by intro t; simp)) ⟨?_, ?_⟩
       · intro hk; rw [hk1] at hk; cases hk
       · intro ks e
         have e' : ks = sortKeys acc := by cases e; rfl
@@ -297,7 +437,7 @@ theorem step_inv {σ σ' : St} {i : Nat} (h : CInv σ) (hs : step σ i = some σ
     | cons v todo =>
       simp only [step, hpc, Option.some.injEq] at hs; subst hs
       obtain ⟨hk1, W, hw, hacc, htodo⟩ := hp
-      refine goto_inv h _ (notUnlock_of hpc (by intro o; simp)) ⟨hk1, W, hw, ?_, ?_⟩
+      refine goto_inv h _ (notUnlock_of hpc (by intro o; simp)) (notClosing_of hpc (by intro t; simp)) ⟨hk1, W, hw, ?_, ?_⟩
       · intro k hk
         by_cases hs : (σ.sys.hasContent v.cid).isSome = true
         · simp only [hs, if_true, List.mem_append, List.mem_singleton] at hk
@@ -317,8 +457,10 @@ theorem step_inv {σ σ' : St} {i : Nat} (h : CInv σ) (hs : step σ i = some σ
       obtain ⟨hR, hw⟩ := op_R h (.begin t lvl) hm
       have hnone : σ.hzLock = none := by cases hz : σ.hzLock <;> simp_all
       have hal : allowed σ i t = true := by simp [allowed, hp.1]
-      refine linearize_inv h (σ.sys.begin t lvl).1 (.begin t lvl) (σ.sys.begin t lvl).2 _ (some i) hp.2.2 rfl hR hw
-        ⟨t, hal, frame_begin σ.sys t lvl⟩ ?_ ?_ ⟨rfl, rfl⟩
+      have hcs := closing_same h (σ.sys.begin t lvl).1 (.begin t lvl) (σ.sys.begin t lvl).2
+        (.beginUnlock (σ.sys.begin t lvl).2) (some i) (notClosing_of hpc (by intro t; simp))
+      refine linearize_inv h (σ.sys.begin t lvl).1 (.begin t lvl) (σ.sys.begin t lvl).2 _ (some i) σ.closing hp.2.2 rfl rfl hR hw
+        ⟨t, hal, frame_begin σ.sys t lvl⟩ ?_ ?_ hcs.1 hcs.2 ⟨rfl, rfl⟩
       · intro j _ hj; rw [hnone] at hj; cases hj
       · intro j hj
         have : j = i := (Option.some.inj hj).symm
@@ -330,50 +472,72 @@ theorem step_inv {σ σ' : St} {i : Nat} (h : CInv σ) (hs : step σ i = some σ
     have hthr : ∀ j, j ≠ i → ({ σ.goto i (.ret o) with hzLock := none } : St).thr j = σ.thr j :=
       fun j hij => setThr_other σ i _ hij
     have g : Guar σ { σ.goto i (.ret o) with hzLock := none } i :=
-      ⟨⟨mainTx, allowed_main σ i, Frame.rfl' _ _⟩, fun _ _ h => h, ⟨[], by simp [St.goto, St.setThr]⟩, fun _ _ _ h => h,
-        fun j hij hj => by rw [hp.1] at hj; exact absurd (Option.some.inj hj).symm hij⟩
+      ⟨⟨mainTx, allowed_main σ i, Frame.rfl' _ _⟩, fun _ _ h => h, ⟨[], by simp [St.goto, St.setThr], by simp⟩, fun _ _ _ h => h,
+        fun j hij hj => by rw [hp.1] at hj; exact absurd (Option.some.inj hj).symm hij, fun _ h => Or.inl h⟩
     refine h.of_step g hthr h.rel h.outs ?_ (by intro j hj; cases hj)
+      (closing_keep h hthr rfl (fun _ _ h => h) (notClosing_of hpc (by intro t; simp))) h.ownerMain
     show TInv _ i (({ σ.goto i (.ret o) with hzLock := none } : St).thr i)
     rw [show ({ σ.goto i (.ret o) with hzLock := none } : St).thr i = { σ.thr i with pc := .ret o } from setThr_self σ i _]
     exact ⟨ht.invLe, ht.wit, ret_of_wit hp.2⟩
+  | commitDereg t =>
+    rw [hpc] at hp
+    simp only [step, hpc] at hs
+    split at hs
+    · rename_i hf
+      simp only [Option.some.injEq] at hs; subst hs
+      exact dereg_step h hpc (by intro o; simp) (by intro t; simp) (by intro t; simp) hf.1 hp.1 (.commitRun t) (Or.inl rfl) hp
+    · simp only [Option.some.injEq] at hs; subst hs
+      have hm : isMut (.commit t) = true := rfl
+      obtain ⟨hR, hw⟩ := op_R h (.commit t) hm
+      exact linearize_same h hpc (by intro o; simp) (by intro t; simp) (σ.sys.commit t).1 (.commit t) (σ.sys.commit t).2 _
+        hp.2 rfl rfl hR hw ⟨t, hp.1, frame_commit isys t⟩ (ret_of_wit rfl)
   | commitRun t =>
     rw [hpc] at hp
     simp only [step, hpc, Option.some.injEq] at hs; subst hs
     have hm : isMut (.commit t) = true := rfl
     obtain ⟨hR, hw⟩ := op_R h (.commit t) hm
-    exact linearize_inv h (σ.sys.commit t).1 (.commit t) (σ.sys.commit t).2 _ σ.hzLock hp.2 rfl hR hw
-      ⟨t, hp.1, frame_commit isys t⟩ (fun _ _ hj => hj) (lin_lock h hpc (by intro o; simp) _ _ _ _) (ret_of_wit rfl)
+    exact close_step h hpc (by intro o; simp) (fun t' e => by cases e; rfl) (fun t' e => by cases e)
+      (σ.sys.commit t).1 (.commit t) (σ.sys.commit t).2 hp.2 rfl rfl hR hw hp.1 (frame_commit isys t)
+      (shape_reg_ne isys (commit_shape σ.sys t))
+  | rollbackDereg t =>
+    rw [hpc] at hp
+    simp only [step, hpc] at hs
+    split at hs
+    · rename_i hf
+      simp only [Option.some.injEq] at hs; subst hs
+      exact dereg_step h hpc (by intro o; simp) (by intro t; simp) (by intro t; simp) hf.1 hp.1 (.rollbackRun t) (Or.inr rfl) hp
+    · simp only [Option.some.injEq] at hs; subst hs
+      have hm : isMut (.rollback t) = true := rfl
+      obtain ⟨hR, hw⟩ := op_R h (.rollback t) hm
+      exact linearize_same h hpc (by intro o; simp) (by intro t; simp) (σ.sys.rollback t).1 (.rollback t) (σ.sys.rollback t).2 _
+        hp.2 rfl rfl hR hw ⟨t, hp.1, frame_rollback isys t⟩ (ret_of_wit rfl)
   | rollbackRun t =>
     rw [hpc] at hp
     simp only [step, hpc, Option.some.injEq] at hs; subst hs
     have hm : isMut (.rollback t) = true := rfl
     obtain ⟨hR, hw⟩ := op_R h (.rollback t) hm
-    exact linearize_inv h (σ.sys.rollback t).1 (.rollback t) (σ.sys.rollback t).2 _ σ.hzLock hp.2 rfl hR hw
-      ⟨t, hp.1, frame_rollback isys t⟩ (fun _ _ hj => hj) (lin_lock h hpc (by intro o; simp) _ _ _ _) (ret_of_wit rfl)
+    exact close_step h hpc (by intro o; simp) (fun t' e => by cases e) (fun t' e => by cases e; rfl)
+      (σ.sys.rollback t).1 (.rollback t) (σ.sys.rollback t).2 hp.2 rfl rfl hR hw hp.1 (frame_rollback isys t)
+      (shape_reg_ne isys (rollback_shape σ.sys t))
   | gcHorizon =>
     rw [hpc] at hp
     simp only [step, hpc] at hs
     split at hs
     · cases hs
     · simp only [Option.some.injEq] at hs; subst hs
-      have hR : R (withB (σ.busy.map (·.2)) (gcDraw σ.sys)) (Spec.step (specOf σ) .gc).1 := by
-        rw [← withB_gcDraw]; exact gcDraw_R h.rel
-      have hsafe := gcHz_safe isys
-      exact linearize_inv h (gcDraw σ.sys) .gc .ok _ σ.hzLock hp rfl hR rfl
-        ⟨mainTx, allowed_main σ i, frame_gcDraw σ.sys mainTx⟩ (fun _ _ hj => hj) (lin_lock h hpc (by intro o; simp) _ _ _ _)
-        ⟨hsafe.1, hsafe.2, rfl⟩
+      exact horizon_step h hpc hp
   | gcCollect hz =>
     rw [hpc] at hp
     obtain ⟨hsafe, hcnt, hwit⟩ := hp
     simp only [step, hpc, Option.some.injEq] at hs; subst hs
     have hthr : ∀ j, j ≠ i → ({ σ.goto i (.gcDelete (delsAt σ.sys hz)) with sys := collectAt σ.sys hz, busy := σ.busy ++ [(i, delsAt σ.sys hz)] } : St).thr j = σ.thr j := fun j hij => setThr_other σ i _ hij
     have g : Guar σ { σ.goto i (.gcDelete (delsAt σ.sys hz)) with sys := collectAt σ.sys hz, busy := σ.busy ++ [(i, delsAt σ.sys hz)] } i :=
-      ⟨⟨mainTx, allowed_main σ i, frame_collectAt σ.sys hz mainTx⟩, fun _ _ h => h, ⟨[], by simp [St.goto, St.setThr]⟩,
-        fun _ _ _ hm => List.mem_append_left _ hm, fun _ _ h => h⟩
-    have hR0 : R (collectAt (withBusy σ) hz) (specOf σ) := collectAt_R h.rel hsafe
+      ⟨⟨mainTx, allowed_main σ i, frame_collectAt σ.sys hz mainTx⟩, fun _ _ h => h, ⟨[], by simp [St.goto, St.setThr], by simp⟩,
+        fun _ _ _ hm => List.mem_append_left _ hm, fun _ _ h => h, fun _ h => Or.inl h⟩
+    have hR0 : Rx σ.closing (collectAt (withBusy σ) hz) (specOf σ) := collectAt_R h.rel hsafe
     have hdead := delsAt_dead h.rel.inv hz
-    have hR : R (withBusy { σ.goto i (.gcDelete (delsAt σ.sys hz)) with sys := collectAt σ.sys hz, busy := σ.busy ++ [(i, delsAt σ.sys hz)] }) (specOf σ) := by
-      show R { collectAt (withBusy σ) hz with pending := (σ.busy ++ [(i, delsAt σ.sys hz)]).map (·.2) ++ σ.sys.pending } (specOf σ)
+    have hR : Rx σ.closing (withBusy { σ.goto i (.gcDelete (delsAt σ.sys hz)) with sys := collectAt σ.sys hz, busy := σ.busy ++ [(i, delsAt σ.sys hz)] }) (specOf σ) := by
+      show Rx σ.closing { collectAt (withBusy σ) hz with pending := (σ.busy ++ [(i, delsAt σ.sys hz)]).map (·.2) ++ σ.sys.pending } (specOf σ)
       apply hR0.pendingChange
       intro job hj v hv
       rw [List.map_append] at hj
@@ -385,6 +549,7 @@ theorem step_inv {σ σ' : St} {i : Nat} (h : CInv σ) (hs : step σ i = some σ
       · subst hj; exact hdead v hv
       · exact hold (List.mem_append_right _ hj)
     refine h.of_step g hthr hR h.outs ?_ (lock_keep h hthr rfl (notUnlock_of hpc (by intro o; simp)))
+        (closing_keep h hthr rfl (fun _ _ h => h) (notClosing_of hpc (by intro t; simp))) h.ownerMain
     show TInv _ i (({ σ.goto i (.gcDelete (delsAt σ.sys hz)) with sys := collectAt σ.sys hz, busy := σ.busy ++ [(i, delsAt σ.sys hz)] } : St).thr i)
     rw [show ({ σ.goto i (.gcDelete (delsAt σ.sys hz)) with sys := collectAt σ.sys hz, busy := σ.busy ++ [(i, delsAt σ.sys hz)] } : St).thr i = { σ.thr i with pc := .gcDelete (delsAt σ.sys hz) } from setThr_self σ i _]
     exact ⟨ht.invLe, ht.wit, ⟨⟨delsAt σ.sys hz, List.mem_append_right _ (by simp), fun _ hv => hv⟩, hwit⟩⟩
@@ -393,28 +558,28 @@ theorem step_inv {σ σ' : St} {i : Nat} (h : CInv σ) (hs : step σ i = some σ
     cases todo with
     | nil =>
       simp only [step, hpc, Option.some.injEq] at hs; subst hs
-      exact finish_step h _ (notUnlock_of hpc (by intro o; simp)) (ret_of_wit hp.2)
+      exact finish_step h _ (notUnlock_of hpc (by intro o; simp)) (notClosing_of hpc (by intro t; simp)) (ret_of_wit hp.2)
     | cons v todo =>
       simp only [step, hpc, Option.some.injEq] at hs; subst hs
-      exact delete_step h _ (notUnlock_of hpc (by intro o; simp)) hp.1 (fun hj => ⟨hj, hp.2⟩)
+      exact delete_step h _ (notUnlock_of hpc (by intro o; simp)) (notClosing_of hpc (by intro t; simp)) hp.1 (fun hj => ⟨hj, hp.2⟩)
   | workTake =>
     rw [hpc] at hp
     simp only [step, hpc] at hs
     split at hs
     · simp only [Option.some.injEq] at hs; subst hs
-      exact linearize_inv h σ.sys .drain .ok _ σ.hzLock hp rfl h.rel rfl
-        ⟨mainTx, allowed_main σ i, Frame.rfl' _ _⟩ (fun _ _ hj => hj) (lin_lock h hpc (by intro o; simp) _ _ _ _) (ret_of_wit rfl)
+      exact linearize_same h hpc (by intro o; simp) (by intro t; simp) σ.sys .drain .ok _ hp rfl rfl h.rel rfl ⟨mainTx, allowed_main σ i, Frame.rfl' _ _⟩ (ret_of_wit rfl)
     · rename_i job rest hpend
       simp only [Option.some.injEq] at hs; subst hs
       have hthr : ∀ j, j ≠ i → ({ σ.goto i (.workDelete job) with sys := { σ.sys with pending := rest }, busy := σ.busy ++ [(i, job)] } : St).thr j = σ.thr j := fun j hij => setThr_other σ i _ hij
       have g : Guar σ { σ.goto i (.workDelete job) with sys := { σ.sys with pending := rest }, busy := σ.busy ++ [(i, job)] } i :=
-        ⟨⟨mainTx, allowed_main σ i, Frame.of_eq mainTx rfl rfl rfl rfl rfl rfl⟩, fun _ _ h => h, ⟨[], by simp [St.goto, St.setThr]⟩,
-          fun _ _ _ hm => List.mem_append_left _ hm, fun _ _ h => h⟩
-      have hR : R (withBusy { σ.goto i (.workDelete job) with sys := { σ.sys with pending := rest }, busy := σ.busy ++ [(i, job)] }) (specOf σ) := by
+        ⟨⟨mainTx, allowed_main σ i, Frame.of_eq mainTx rfl rfl rfl rfl rfl rfl⟩, fun _ _ h => h, ⟨[], by simp [St.goto, St.setThr], by simp⟩,
+          fun _ _ _ hm => List.mem_append_left _ hm, fun _ _ h => h, fun _ h => Or.inl h⟩
+      have hR : Rx σ.closing (withBusy { σ.goto i (.workDelete job) with sys := { σ.sys with pending := rest }, busy := σ.busy ++ [(i, job)] }) (specOf σ) := by
         refine h.rel.congr rfl rfl rfl rfl rfl rfl rfl rfl ?_
         show (σ.busy ++ [(i, job)]).map (·.2) ++ rest = σ.busy.map (·.2) ++ σ.sys.pending
         rw [hpend]; simp
       refine h.of_step g hthr hR h.outs ?_ (lock_keep h hthr rfl (notUnlock_of hpc (by intro o; simp)))
+        (closing_keep h hthr rfl (fun _ _ h => h) (notClosing_of hpc (by intro t; simp))) h.ownerMain
       show TInv _ i (({ σ.goto i (.workDelete job) with sys := { σ.sys with pending := rest }, busy := σ.busy ++ [(i, job)] } : St).thr i)
       rw [show ({ σ.goto i (.workDelete job) with sys := { σ.sys with pending := rest }, busy := σ.busy ++ [(i, job)] } : St).thr i = { σ.thr i with pc := .workDelete job } from setThr_self σ i _]
       exact ⟨ht.invLe, ht.wit, ⟨⟨job, List.mem_append_right _ (by simp), fun _ hv => hv⟩, hp⟩⟩
@@ -423,10 +588,10 @@ theorem step_inv {σ σ' : St} {i : Nat} (h : CInv σ) (hs : step σ i = some σ
     cases todo with
     | nil =>
       simp only [step, hpc, Option.some.injEq] at hs; subst hs
-      exact finish_step h _ (notUnlock_of hpc (by intro o; simp)) hp.2
+      exact finish_step h _ (notUnlock_of hpc (by intro o; simp)) (notClosing_of hpc (by intro t; simp)) hp.2
     | cons v todo =>
       simp only [step, hpc, Option.some.injEq] at hs; subst hs
-      exact delete_step h _ (notUnlock_of hpc (by intro o; simp)) hp.1 (fun hj => ⟨hj, hp.2⟩)
+      exact delete_step h _ (notUnlock_of hpc (by intro o; simp)) (notClosing_of hpc (by intro t; simp)) hp.1 (fun hj => ⟨hj, hp.2⟩)
 
 end FsDb.Conc
 
@@ -453,15 +618,17 @@ theorem invoke_inv {σ σ' : St} {i : Nat} {op : Op} (h : CInv σ) (hs : invoke 
       -- the common part: a fresh thread record, possibly a new owner entry
       have key : ∀ (owner' : Nat → Option Nat) (th : Thread),
           th.op = some op → th.wit = none → th.invAt = σ.lin.length →
-          (∀ t j, σ.owner t = some j → owner' t = some j) →
+          (∀ t j, σ.owner t = some j → owner' t = some j) → owner' mainTx = none →
           PcInv { σ.setThr i th with owner := owner' } i th th.pc →
           CInv { σ.setThr i th with owner := owner' } := by
-        intro owner' th hop hwit hinv hown hpcinv
+        intro owner' th hop hwit hinv hown hom hpcinv
         have hthr : ∀ j, j ≠ i → ({ σ.setThr i th with owner := owner' } : St).thr j = σ.thr j :=
           fun j hij => setThr_other σ i _ hij
         have g : Guar σ { σ.setThr i th with owner := owner' } i :=
-          ⟨⟨mainTx, allowed_main σ i, Frame.rfl' _ _⟩, hown, ⟨[], by simp [St.setThr]⟩, fun _ _ _ h => h, fun _ _ h => h⟩
+          ⟨⟨mainTx, allowed_main σ i, Frame.rfl' _ _⟩, hown, ⟨[], by simp [St.setThr], by simp⟩, fun _ _ _ h => h, fun _ _ h => h,
+            fun _ h => Or.inl h⟩
         refine h.of_step g hthr h.rel h.outs ?_ (lock_keep h hthr rfl hnot)
+          (closing_keep h hthr rfl hown (by rw [hidle']; intro t; simp)) hom
         show TInv _ i (({ σ.setThr i th with owner := owner' } : St).thr i)
         rw [show ({ σ.setThr i th with owner := owner' } : St).thr i = th from setThr_self σ i _]
         refine ⟨by rw [hinv]; exact Nat.le_refl _, ?_, hpcinv⟩
@@ -480,61 +647,65 @@ theorem invoke_inv {σ σ' : St} {i : Nat} {op : Op} (h : CInv σ) (hs : invoke 
             · cases ho : σ.owner t with
               | none => rfl
               | some j => exact absurd (Or.inr (by simp [ho])) hfresh
-          refine key _ _ rfl rfl rfl ?_ ⟨by simp, hf.1, rfl⟩
-          intro t' j hj
-          by_cases e : t' = t
-          · subst e; rw [hf.2] at hj; cases hj
-          · simp [e, hj]
+          refine key _ _ rfl rfl rfl ?_ ?_ ⟨by simp, hf.1, rfl⟩
+          · intro t' j hj
+            by_cases e : t' = t
+            · subst e; rw [hf.2] at hj; cases hj
+            · simp [e, hj]
+          · have : mainTx ≠ t := fun e => hf.1 e.symm
+            simp [this, h.ownerMain]
       | set t k c =>
         simp only [entry, Option.some.injEq] at hentry; subst hentry
         simp only [txOf] at hs
         obtain ⟨hal, hs⟩ := ite_some hs; subst hs
-        exact key σ.owner _ rfl rfl rfl (fun _ _ h => h) ⟨hal, rfl⟩
+        exact key σ.owner _ rfl rfl rfl (fun _ _ h => h) h.ownerMain ⟨hal, rfl⟩
       | del t k =>
         simp only [entry, Option.some.injEq] at hentry; subst hentry
         simp only [txOf] at hs
         obtain ⟨hal, hs⟩ := ite_some hs; subst hs
-        exact key σ.owner _ rfl rfl rfl (fun _ _ h => h) ⟨hal, rfl⟩
+        exact key σ.owner _ rfl rfl rfl (fun _ _ h => h) h.ownerMain ⟨hal, rfl⟩
       | get t k =>
         simp only [entry, Option.some.injEq] at hentry; subst hentry
         simp only [txOf] at hs
         obtain ⟨hal, hs⟩ := ite_some hs; subst hs
-        exact key σ.owner _ rfl rfl rfl (fun _ _ h => h) ⟨hal, rfl⟩
+        exact key σ.owner _ rfl rfl rfl (fun _ _ h => h) h.ownerMain ⟨hal, rfl⟩
       | keys t =>
         simp only [entry, Option.some.injEq] at hentry; subst hentry
         simp only [txOf] at hs
         obtain ⟨hal, hs⟩ := ite_some hs; subst hs
-        exact key σ.owner _ rfl rfl rfl (fun _ _ h => h) ⟨hal, rfl⟩
+        exact key σ.owner _ rfl rfl rfl (fun _ _ h => h) h.ownerMain ⟨hal, rfl⟩
       | commit t =>
         simp only [entry, Option.some.injEq] at hentry; subst hentry
         simp only [txOf] at hs
         obtain ⟨hal, hs⟩ := ite_some hs; subst hs
-        exact key σ.owner _ rfl rfl rfl (fun _ _ h => h) ⟨hal, rfl⟩
+        exact key σ.owner _ rfl rfl rfl (fun _ _ h => h) h.ownerMain ⟨hal, rfl⟩
       | rollback t =>
         simp only [entry, Option.some.injEq] at hentry; subst hentry
         simp only [txOf] at hs
         obtain ⟨hal, hs⟩ := ite_some hs; subst hs
-        exact key σ.owner _ rfl rfl rfl (fun _ _ h => h) ⟨hal, rfl⟩
+        exact key σ.owner _ rfl rfl rfl (fun _ _ h => h) h.ownerMain ⟨hal, rfl⟩
       | gc =>
         simp only [entry, Option.some.injEq] at hentry; subst hentry
         simp only [txOf] at hs
         obtain ⟨_, hs⟩ := ite_some hs; subst hs
-        exact key σ.owner _ rfl rfl rfl (fun _ _ h => h) rfl
+        exact key σ.owner _ rfl rfl rfl (fun _ _ h => h) h.ownerMain rfl
       | drain =>
         simp only [entry, Option.some.injEq] at hentry; subst hentry
         simp only [txOf] at hs
         obtain ⟨_, hs⟩ := ite_some hs; subst hs
-        exact key σ.owner _ rfl rfl rfl (fun _ _ h => h) rfl
+        exact key σ.owner _ rfl rfl rfl (fun _ _ h => h) h.ownerMain rfl
       | reopen f => simp [entry] at hentry
       | tree => simp [entry] at hentry
 
 theorem CInv.init : CInv ({} : St) := by
-  refine ⟨?_, rfl, ?_, ?_⟩
+  refine ⟨?_, rfl, ?_, ?_, ?_, rfl, ?_⟩
   · show R (withB [] ({} : Sys)) ({} : State)
     exact R.init
   · intro i
     exact ⟨Nat.le_refl _, (fun w hw => by cases hw), trivial⟩
   · intro i hi; cases hi
+  · intro t ht; cases ht
+  · intro e he; cases he
 
 theorem next_inv {σ : St} (h : CInv σ) (a : Act) : CInv (next σ a) := by
   cases a with
@@ -576,6 +747,8 @@ theorem progress {σ : St} (h : CInv σ) (i : Nat) (hbusy : (σ.thr i).pc ≠ .i
     | getContent tx k v => simp only [step, hpc]; split <;> rfl
     | workTake => simp only [step, hpc]; split <;> rfl
     | delGuard t k => simp only [step, hpc]; split <;> rfl
+    | commitDereg t => simp only [step, hpc]; split <;> rfl
+    | rollbackDereg t => simp only [step, hpc]; split <;> rfl
     | setGuard t k c =>
       simp only [step, hpc]
       split
@@ -587,5 +760,65 @@ theorem progress {σ : St} (h : CInv σ) (i : Nat) (hbusy : (σ.thr i).pc ≠ .i
       · rfl
       · split <;> rfl
     | _ => simp [step, hpc, hl]
+
+/-! ### from the log with counter advances to the specification's own history
+
+The ghost specification state follows the counter advances of the log (`Spec.erun`).  They are
+invisible (`Proofs/MultiDb`, `Proofs/SpecShift`): the specification executing the OPERATIONS of the
+log alone gives the same answers. -/
+
+/-- the operations of a log prefix, counter advances erased -/
+def logOps (σ : St) (n : Nat) : List Op := opsOf (linOps (σ.lin.take n))
+
+/-- the specification state after the operations of the first `n` log entries -/
+def pureAt (σ : St) (n : Nat) : State := (Spec.run {} (logOps σ n)).1
+
+theorem spec_run_append (s : State) (a : List Op) (op : Op) :
+    (Spec.run s (a ++ [op])).2 = (Spec.run s a).2 ++ [(Spec.step (Spec.run s a).1 op).2] := by
+  induction a generalizing s with
+  | nil => rfl
+  | cons x a ih =>
+    simp only [List.cons_append, Spec.run]
+    rw [ih (Spec.step s x).1]
+
+theorem opsOf_append_op (es : List EOp) (op : Op) : opsOf (es ++ [.op op]) = opsOf es ++ [op] := by
+  induction es with
+  | nil => rfl
+  | cons e es ih => cases e <;> simp [opsOf, ih]
+
+/-- any further operation answers the same after the log with and without its counter advances -/
+theorem erun_answer_pure (es : List EOp) (hp : ∀ e ∈ es, e.plain = true) (op : Op) (hop : plainOp op = true) :
+    (Spec.step (Spec.erun {} es).1 op).2 = (Spec.step (Spec.run {} (opsOf es)).1 op).2 := by
+  have hp' : ∀ e ∈ es ++ [.op op], e.plain = true := by
+    intro e he
+    rcases List.mem_append.mp he with he | he
+    · exact hp e he
+    · simp only [List.mem_singleton] at he; subst he; exact hop
+  have h1 := erun_erases (Shift.refl {}) SInv.init OwnLe.init (es ++ [.op op]) hp'
+  have h0 := erun_erases (Shift.refl {}) SInv.init OwnLe.init es hp
+  rw [(spec_erun_append {} es op).2, opsOf_append_op, spec_run_append, h0] at h1
+  exact List.singleton_inj.mp (List.append_cancel_left h1)
+
+theorem take_plain {σ : St} (h : CInv σ) (n : Nat) : ∀ e ∈ linOps (σ.lin.take n), e.plain = true := by
+  intro e he
+  obtain ⟨x, hx, rfl⟩ := List.mem_map.mp he
+  exact h.plain x (List.mem_of_mem_take hx)
+
+theorem specAt_get_pure {σ : St} (h : CInv σ) (n t : Nat) (k : Key) :
+    Spec.get (specAt σ n) t k = Spec.get (pureAt σ n) t k :=
+  erun_answer_pure _ (take_plain h n) (.get t k) rfl
+
+theorem specAt_getKeys_pure {σ : St} (h : CInv σ) (n t : Nat) :
+    Spec.getKeys (specAt σ n) t = Spec.getKeys (pureAt σ n) t :=
+  erun_answer_pure _ (take_plain h n) (.keys t) rfl
+
+/-- the whole log: the specification executing its operations alone gives the logged answers -/
+theorem log_pure {σ : St} (h : CInv σ) : (Spec.run {} (opsOf (linOps σ.lin))).2 = linOuts σ.lin := by
+  have hp : ∀ e ∈ linOps σ.lin, e.plain = true := by
+    intro e he
+    obtain ⟨x, hx, rfl⟩ := List.mem_map.mp he
+    exact h.plain x hx
+  rw [← erun_erases (Shift.refl {}) SInv.init OwnLe.init _ hp]
+  exact h.outs
 
 end FsDb.Conc
